@@ -3,7 +3,7 @@
 From Coq Require Import Sorting.Permutation.
 From CKC Require Import Base.Prelude Base.Reflect Base.SortN Base.Combs Spec.Layout Spec.Poker.
 From CKC Require Import Model.Card Model.Hands Model.Five Model.HandRank.
-From CKC Require Import Proofs.CardFacts Proofs.CombFacts Proofs.FiveFacts Proofs.ShapeFacts Proofs.C01 Proofs.C02.
+From CKC Require Import Proofs.CardFacts Proofs.CombFacts Proofs.FiveFacts Proofs.ShapeFacts Proofs.C01 Proofs.TableFacts.
 From CKC Require Import Gen.Consts.
 Open Scope N_scope.
 
@@ -131,12 +131,22 @@ Proof.
     apply real_card_eq; auto; [congruence|]. apply Hf2; try tauto. congruence.
 Qed.
 
-Lemma relabel_best_value f n ws :
-  suit_bijection f -> HandN n ws -> best_value (map (relabel f) ws) = best_value ws.
+Lemma sel_map_commute (g : N -> N) n ws p :
+  length ws = n -> valid_row n p -> sel (map g ws) p = map g (sel ws p).
 Proof.
-  intros Hf H. unfold best_value. rewrite combs_map, map_map. f_equal.
-  apply map_ext_in. intros c Hc. apply In_combs in Hc. destruct Hc as [Hs Hl].
-  unfold value5. f_equal. apply (relabel_hand5 f c Hf (sub_hand n ws c H Hs Hl)).
+  intros HL (_ & _ & PR). unfold sel. rewrite map_map. apply map_ext_in. intros i Hi.
+  rewrite Forall_forall in PR. specialize (PR i Hi). unfold nthN.
+  rewrite (nth_indep (map g ws) 0 (g 0)) by (rewrite map_length; lia). apply map_nth.
+Qed.
+
+Lemma relabel_table_value f n perms ws :
+  suit_bijection f -> valid_table n perms -> HandN n ws ->
+  table_value perms (map (relabel f) ws) = table_value perms ws.
+Proof.
+  intros Hf [_ T] H. unfold table_value. apply (f_equal min_list). apply map_ext_in. intros p Hp.
+  rewrite (sel_map_commute (relabel f) n ws p (proj1 H) (T p Hp)).
+  destruct (relabel_hand5 f (sel ws p) Hf (proj1 (sel_hand5 n ws p H (T p Hp)))) as [_ E].
+  unfold value5. rewrite E. reflexivity.
 Qed.
 
 (* the value returned by ranking is invariant, for five, six and seven cards *)
@@ -149,10 +159,12 @@ Proof.
     exists (ordinal (shape_of ws)). split.
     + exact (proj1 (value_ok chk ws H)).
     + rewrite <- E. exact (proj1 (value_ok chk _ H')).
-  - exists (best_value ws). split.
-    + exact (proj1 (value_n_ok chk n ws Hn H)).
-    + rewrite <- (relabel_best_value f n ws Hf H).
-      exact (proj1 (value_n_ok chk n _ Hn (relabel_handN f n ws Hf H))).
+  - eexists. split.
+    + exact (proj1 (value_table_ok chk n ws Hn H)).
+    + rewrite <- (relabel_table_value f n _ ws Hf).
+      * exact (proj1 (value_table_ok chk n _ Hn (relabel_handN f n ws Hf H))).
+      * destruct tables_valid as [T6 T7]. destruct Hn as [->| ->]; assumption.
+      * exact H.
 Qed.
 
 Lemma shift_hand_is_relabel ws : Forall RealCard ws -> shift_suit_hand ws = map (relabel next_suit_spec) ws.
